@@ -44,6 +44,9 @@ type C05Sc struct {
 	NilIO bool `json:"nil_io,omitempty"`
 	// Swap (program family): host replaces cpu.Memory/cpu.IO by equal-content devices before every Step (1) / copies the CPU struct too (2)
 	Swap int `json:"swap,omitempty"`
+	// Watch != 0 (program family): writes to [Watch, Watch+0x40) make the memory device overwrite
+	// cpu.Interrupt with a fresh NMI (at most 8 times)
+	Watch uint16 `json:"watch,omitempty"`
 }
 
 type c05 struct{}
@@ -102,15 +105,26 @@ func (c05) Gen(r *world.Rng, tier string, n int) interface{} {
 				// emulator resumes behind the overlaid bytes - but every Step is still checked on its own)
 				a := gen.DataBase + 0x100 + uint16(r.Intn(0x200))
 				lo, hi := uint8(a), uint8(a>>8)
-				ev.Data = hex.EncodeToString([][]uint8{{0x01, lo, hi}, {0x11, lo, hi}, {0x21, lo, hi}, {0x3a, lo, hi}, {0x32, lo, hi}, {0x2a, lo, hi}, {0x22, lo, hi},
-					{0x00}, {0x3c}, {0x34}, {0x7e}, {0xd3, r.Byte()}, {0xdb, r.Byte()}, {0xed, 0x4b, lo, hi}, {0xdd, 0x21, lo, hi}, {0xcb, 0xc6}, {0x3e, r.Byte()}}[r.Intn(17)])
+				d := [][]uint8{{0x01, lo, hi}, {0x11, lo, hi}, {0x21, lo, hi}, {0x3a, lo, hi}, {0x32, lo, hi}, {0x2a, lo, hi}, {0x22, lo, hi},
+					{0x00}, {0x3c}, {0x34}, {0x7e}, {0xd3, r.Byte()}, {0xdb, r.Byte()}, {0xed, 0x4b, lo, hi}, {0xdd, 0x21, lo, hi}, {0xcb, 0xc6}, {0x3e, r.Byte()},
+					{0xc9}, {0xc1}, {0x86}, {0xe3}}[r.Intn(21)]
+				if r.Chance(1, 3) {
+					d = append(append([]uint8{}, d...), r.Bytes(r.Range(1, 3))...) // the device drives more bytes than the instruction needs
+				}
+				ev.Data = hex.EncodeToString(d)
 			}
 			if r.Bool() {
 				ev.AtTick = uint64(r.Range(1, 1500))
+				ev.Force = r.Chance(1, 4) // a device that overwrites the slot whatever it holds, also during an acceptance
 			} else {
 				ev.Boundary = r.Intn(300)
 			}
 			sc.Events = append(sc.Events, ev)
+		}
+		if r.Chance(1, 3) {
+			// a write-watch device: every write into a window of the stack region posts an NMI (forced), so
+			// the pushes of an acceptance themselves raise the next request
+			sc.Watch = uint16(r.Range(gen.StackLo+0x800, gen.StackHi-0x40))
 		}
 		sc.MaxSteps = 1500
 		if r.Chance(1, 5) {
@@ -436,7 +450,7 @@ func expectAcceptIM0(before z80.States, data []uint8, peek func(uint16) uint8) *
 		return peek(a)
 	}
 	exp := model.BusExpect(preState(before), ov)
-	if !exp.Known || exp.Len != len(data) || isPushing(exp.Class) {
+	if !exp.Known || exp.Len > len(data) || isPushing(exp.Class) {
 		return nil // supplied bytes are not exactly one modelled instruction, or one that pushes a return address (C07's subject)
 	}
 	for _, a := range append(append([]uint16(nil), exp.Reads...), addrsOf(exp.Writes)...) {
@@ -558,6 +572,16 @@ func c05Program(sc *C05Sc, env *Env) *Violation {
 	}
 	if sc.NilIO {
 		m.CPU.IO = nil
+	}
+	if sc.Watch != 0 {
+		left := 8
+		m.Hook = func(mm *world.Machine, a world.Acc) {
+			if a.Kind == world.MW && a.Addr-sc.Watch < 0x40 && left > 0 {
+				left--
+				mm.CPU.Interrupt = z80.NMIInterrupt()
+				env.Fire("write-watch-device-posts-NMI")
+			}
+		}
 	}
 	peek := func(a uint16) uint8 { return m.Bus.Mem[a] }
 	prevEI := false
